@@ -460,6 +460,7 @@ def run(ctx):
     core.lean_stage(ctx, MODULE, FILE, drivers=["drv_sched"])
     from harness.props import _tie
     _tie.crew_tie(ctx)  # layer 3: Method.survey_site, translated from the current source, is Crew.surveyStep/applyStep
+    _tie.estimate_tie(ctx)  # layer 3: crews of a method and the daily capacity estimate (ceil), translated over Q
     rng = ctx.rng
     cases = list(exhaustive_cases())
     ctx.extra["exhaustive_core_size"] = len(cases)
